@@ -117,11 +117,19 @@ def units(tier):
     n = 16 if tier == 'quick' else 64
     for sh in range(n):
         out.append({'fam': 'raw', 'depth': d, 'shard': [sh, n], 'tier': tier})
+    for part in spaces.shard(list(range(len(inn))), 8):
+        out.append({'fam': 'many', 'inners': part, 'tier': tier})
     return out
 
 
 def cases(unit):
     fam = unit['fam']
+    if fam == 'many':
+        inn = inners(unit['tier'])
+        for ii in unit['inners']:
+            for nk in (20, 150):
+                yield {'fam': 'many', 'inner': inn[ii], 'nkeys': nk}
+        return
     if fam == 'raw':
         sh, n = unit['shard']
         for i, seq in enumerate(spaces.wf_sequences([0, 1], [1, 2], unit['depth'])):
@@ -177,10 +185,33 @@ def compare_lifetimes(head, tail, inner, acc, fam, ctxinfo):
     return out, hl
 
 
+def run_many(case, acc):
+    """Many keys alive at the same time (slot indices far beyond the small alphabets): 20 / 150 groups, each receiving
+    four items in three interleaved passes with a gap before the first item reaches the stateful operator."""
+    inner, nk = case['inner'], case['nkeys']
+    opspecs.FUNCS['mod_nk'] = lambda x, nk=nk: x % nk
+    items = list(range(nk)) + [x + nk for x in range(nk)] + [x + 2 * nk for x in range(0, nk, 2)] + [x + 3 * nk for x in range(nk)]
+    spec = [['group_by', 'mod_nk', [['tap', 'h']] + inner + [['tap', 't']]]]
+    sink, ctx, store = harness.run_api(spec, items)
+    acc.evals += 1
+    acc.events += len(items) + 1
+    out = []
+    sp = harness.status_problem(sink)
+    if sp:
+        out.append(viol('many', inner, sp, {'inner': inner, 'nkeys': nk, 'error': repr(sink.error)}))
+    vs, hl = compare_lifetimes(ctx.log('h'), ctx.log('t'), inner, acc, 'many', {'inner': inner, 'nkeys': nk})
+    out.extend(vs)
+    acc.count('many_live_keys')
+    acc.outcomes.add(fast_hash(repr((inner, nk, len(ctx.log('t'))))))
+    return out
+
+
 def run_case(case, acc):
     fam = case['fam']
     if fam == 'raw':
         return run_raw(case, acc)
+    if fam == 'many':
+        return run_many(case, acc)
     inner, seq = case['inner'], case['seq']
     parents = case['parents']
     items = list(seq)
